@@ -9,8 +9,13 @@ package cache
 import (
 	"bytes"
 	"context"
+	"crypto/sha256"
+	"encoding/json"
 	"fmt"
+	"os"
+	"os/exec"
 	"sort"
+	"strconv"
 	"strings"
 
 	"github.com/tetratelabs/wazero"
@@ -26,7 +31,34 @@ import (
 
 type c13 struct{}
 
-func init() { sim.Register(c13{}) }
+func init() {
+	sim.Register(c13{})
+	sim.RegisterChildMode("c13det", childDeterminism)
+}
+
+// childDeterminism: "vworker child c13det <tape json> <garbage>": regenerates
+// the module from the tape in a fresh OS process, after perturbing the heap,
+// and prints the hash of its cache entry.
+func childDeterminism(args []string) {
+	var rec []uint32
+	if err := json.Unmarshal([]byte(args[0]), &rec); err != nil {
+		fmt.Println("bad tape", err)
+		os.Exit(2)
+	}
+	n, _ := strconv.Atoi(args[1])
+	var junk [][]byte
+	for i := 0; i < n; i++ {
+		junk = append(junk, make([]byte, 100+i%4096))
+	}
+	_ = junk
+	p := genPlan(tape.Replay(rec))
+	path, b, _, err := reference(p.Encode())
+	if err != nil {
+		fmt.Println("ERR", err)
+		os.Exit(2)
+	}
+	fmt.Printf("ENTRY %s %x %d\n", path, sha256.Sum256(b), len(b))
+}
 
 func (c13) Property() string { return "C13" }
 
@@ -36,13 +68,14 @@ func (c13) Classes() []sim.Class {
 		{Name: "truncation", Engine: "compiler", Quick: 32, Thorough: 600, Instrumented: true, RunTimeoutSec: 300, Batch: 1},
 		{Name: "read-faults", Engine: "compiler", Quick: 32, Thorough: 600, Instrumented: true, RunTimeoutSec: 300, Batch: 1},
 		{Name: "concurrent-writers", Engine: "compiler", Quick: 160, Thorough: 6000, Instrumented: true, RunTimeoutSec: 300},
+		{Name: "determinism-processes", Engine: "compiler", Quick: 24, Thorough: 800, Instrumented: true, RunTimeoutSec: 300},
 	}
 }
 
 func (c13) Describe() sim.Description {
 	return sim.Description{
 		Level: "fault_enumeration",
-		Rule: "per run one tape-generated module (plan vocabulary, 3-8 functions). Determinism: the entry written by three fresh runtimes on fresh sim-disks is byte-identical (reference entry). " +
+		Rule: "per run one tape-generated module (plan vocabulary, 3-8 functions). Determinism: the entry written by three fresh runtimes on fresh sim-disks is byte-identical (reference entry); class determinism-processes repeats it in separate OS processes with different GOMAXPROCS, environment and allocation history. " +
 			"Class crash-points ENUMERATES every crash point of the add operation: before each mutating syscall the sim-disk logged (CreateTemp, Write, Sync, Close, Rename, ...) and inside each Write after k bytes (k in 0, 1, every 512th byte, len-1; thorough: every k for writes up to 1000 bytes, else about 1000 evenly spaced k); the crash freezes the disk and unwinds the writer; the post-crash disk is produced under process death (completed syscalls persist, k-byte prefix of the in-flight write) and under power loss (file data persists only up to its last Sync, unsynced tail dropped or zero-filled, each directory operation persisted or not - all-persisted, none, and tape-sampled subsets); " +
 			"a new runtime over the surviving disk must find under the final name nothing or a byte-identical entry, compile successfully, and run the plan correctly. Class truncation: every truncation length of the reference entry (quick: all structure boundaries +-1 and every 97th byte; thorough: every length) and foreign-version entries must give an error or a fresh compile, never a success that used the damaged bytes. " +
 			"Class read-faults: short reads and EIO on the entry. Class concurrent-writers: two runtimes compile the same module as baton-scheduled tasks, yields at every sim-disk syscall, optional crash. Non-trivial: the crash landed inside the add operation (or the cut/fault hit the entry); distinct = (module, crash point, persistence model)",
@@ -216,6 +249,27 @@ func (c13) Run(t *tape.Tape, cfg sim.Config) (res sim.Result) {
 		readFaults(t, cfg, &res, p, bin, refPath, ref)
 	case "concurrent-writers":
 		concurrent(t, cfg, &res, p, bin, refPath, ref)
+	case "determinism-processes":
+		// the same module compiled in separate OS processes with different GOMAXPROCS,
+		// environment and allocation history must give the same entry
+		planTape, _ := json.Marshal(t.Record())
+		want := fmt.Sprintf("ENTRY %s %x %d", refPath, sha256.Sum256(ref), len(ref))
+		for i, v := range []struct {
+			gmp  string
+			junk int
+		}{{"1", 0}, {"7", 20000 + t.Choose(50000)}, {"16", 3}} {
+			cmd := exec.Command(os.Args[0], "child", "c13det", string(planTape), strconv.Itoa(v.junk))
+			cmd.Env = []string{"GOMAXPROCS=" + v.gmp, fmt.Sprintf("X%d=%d", i, v.junk), "TZ=UTC"}
+			out, err := cmd.CombinedOutput()
+			got := strings.TrimSpace(string(out))
+			if err != nil || got != want {
+				res.Fail("nondeterministic-entry", "a fresh OS process (GOMAXPROCS=%s, %d junk allocations first) produced %q (err %v); this process produced %q", v.gmp, v.junk, got, err, want)
+				return
+			}
+			res.Steps++
+		}
+		res.Nontrivial = true
+		res.Stat("probe.cross_process_entries_equal", 3)
 	}
 	return
 }
